@@ -4,6 +4,8 @@ import Hgxv.Proofs.C08Nbrs
 import Hgxv.Proofs.C08LinkC01
 import Hgxv.Proofs.C08LinkDeg
 import Hgxv.Proofs.C08LinkHist
+import Hgxv.Proofs.C08Visit
+import Hgxv.Proofs.C08Comp
 /-! # C08 — degrees and connected components equal their combinatorial definitions
 
 Property theorems about the model `Hgxv/Model/C08.lean` (specification vocabulary `Adj`, `Reach`, `WF`, `Disj` in
@@ -951,3 +953,308 @@ theorem C08_link_hist_ops (k : Nat) (cs : List C01.Cmd) (hwf : ∀ c ∈ cs, c.W
 example : ((C01.run (C01.init 2) exHistory)[0]?.map fun s =>
       (Hist.removeNode (contentOf (C01.abs s)) 3 true, Hist.removeEdge (contentOf (C01.abs s)) [1, 3])) =
     some (some ⟨[0, 1, 2, 4, 5, 6], [[0, 1], [6], [1, 2], [4]]⟩, none) := by decide
+
+/-! ## Extension round: `utils/visits.py` in full (`_bfs` / `_dfs`, `max_depth`), the filter as a restriction, the
+components as THE partition into reachability classes, cross-consistency of the connectivity functions
+
+`Model/C08Visit.lean`: one loop `search` for `_bfs` (FIFO) and `_dfs` (LIFO) over `(node, depth)` pairs with the test
+`max_depth is None or depth < max_depth`; `visitFrom nodes es f md dfs u` is `_bfs` / `_dfs` `(hg, u, max_depth=md, f)`.
+`Walk es f u k v`: a walk of exactly `k` steps from `u` to `v`, every step inside one hyperedge that passes `f`. -/
+
+/-- `_bfs` and `_dfs` with `max_depth=None` (every filter): the start must be a node; the visited set never repeats a node
+and is exactly the reachability class of the start - so both searches return the same set; and the depth-aware `_bfs`
+is, list for list, the `_bfs` all functions of `utils/cc.py` are built on (`bfsFrom`, theorems above).  No hypothesis. -/
+theorem C08_visit_unbounded (nodes : List Nat) (es : List Edge) (f : Filt) (dfs : Bool) (u : Nat) :
+    (u ∈ nodes → ∃ c, visitFrom nodes es f none dfs u = some c ∧ c.Nodup ∧ ∀ v, v ∈ c ↔ Reach es f u v) ∧
+    (∀ md, u ∉ nodes → visitFrom nodes es f md dfs u = none) ∧
+    visitFrom nodes es f none false u = bfsFrom nodes es f u ∧
+    (∀ c d, visitFrom nodes es f none true u = some c → visitFrom nodes es f none false u = some d → c.Perm d) := by
+  refine ⟨?_, ?_, ?_, ?_⟩
+  · intro hu
+    exact ⟨visitH es f none dfs u, by simp [visitFrom, hu], visitH_nodup es f none dfs u,
+      fun v => mem_visitH_none es f dfs u v⟩
+  · intro md hu; simp [visitFrom, hu]
+  · simp only [visitFrom, bfsFrom, visitH_eq_bfsH]
+  · intro c d hc hd
+    by_cases hu : u ∈ nodes
+    · simp only [visitFrom, hu, if_true, Option.some.injEq] at hc hd
+      subst hc; subst hd
+      apply (List.perm_ext_iff_of_nodup (visitH_nodup es f none true u) (visitH_nodup es f none false u)).mpr
+      intro v
+      rw [mem_visitH_none, mem_visitH_none]
+    · simp [visitFrom, hu] at hc
+
+/-- `_bfs(hg, u, max_depth=m, order|size)` for every integer bound `m` (also 0 and negative ones): the visited set is
+exactly the ball of radius `max m 0` around `u` - the nodes a walk of at most `m` steps along filtered hyperedges reaches.
+(`Walk` and `Reach` speak about the same relation: reachable = reached by a walk of some length.)  No hypothesis. -/
+theorem C08_bfs_depth (nodes : List Nat) (es : List Edge) (f : Filt) (m : Int) (u : Nat) (hu : u ∈ nodes) :
+    (∃ c, visitFrom nodes es f (some m) false u = some c ∧ c.Nodup ∧
+      ∀ v, v ∈ c ↔ ∃ k : Nat, (k : Int) ≤ max m 0 ∧ Walk es f u k v) ∧
+    (∀ v, Reach es f u v ↔ ∃ k, Walk es f u k v) := by
+  refine ⟨⟨visitH es f (some m) false u, by simp [visitFrom, hu], visitH_nodup es f _ _ u, fun v => ?_⟩,
+    fun v => ⟨reach_walk, fun ⟨_, hk⟩ => hk.reach⟩⟩
+  rw [mem_visitH_bfs]
+  constructor
+  · rintro ⟨k, hw, hok⟩; exact ⟨k, (okLen_some m k).mp hok, hw⟩
+  · rintro ⟨k, hok, hw⟩; exact ⟨k, hw, (okLen_some m k).mpr hok⟩
+
+/-- Consequences for the bound: a larger bound visits at least as much; every bounded search stays inside the reachability
+class (= the unbounded search); a bound `≤ 0` visits the start only; `max_depth=1` visits the start and exactly its
+`get_neighbors`. -/
+theorem C08_bfs_depth_mono (es : List Edge) (f : Filt) (u : Nat) :
+    (∀ m m' : Int, m ≤ m' → ∀ v ∈ visitH es f (some m) false u, v ∈ visitH es f (some m') false u) ∧
+    (∀ (m : Int) (dfs : Bool), ∀ v ∈ visitH es f (some m) dfs u, v ∈ visitH es f none dfs u) ∧
+    (∀ (m : Int) (dfs : Bool), m ≤ 0 → ∀ v, v ∈ visitH es f (some m) dfs u ↔ v = u) ∧
+    (∀ v, v ∈ visitH es f (some 1) false u ↔ v = u ∨ v ∈ neighbors es f u) := by
+  refine ⟨?_, ?_, ?_, ?_⟩
+  · intro m m' hmm v hv
+    rw [mem_visitH_bfs] at hv ⊢
+    obtain ⟨k, hw, hok⟩ := hv
+    refine ⟨k, hw, ?_⟩
+    rw [okLen_some] at hok ⊢; omega
+  · intro m dfs v hv
+    obtain ⟨k, hw, _⟩ := mem_visitH_sound es f _ dfs u v hv
+    exact (mem_visitH_none es f dfs u v).mpr hw.reach
+  · intro m dfs hm v
+    constructor
+    · intro hv
+      obtain ⟨k, hw, hok⟩ := mem_visitH_sound es f _ dfs u v hv
+      rw [okLen_some] at hok
+      have hk : k = 0 := by omega
+      subst hk
+      cases hw; rfl
+    · intro hv; rw [hv]; exact self_mem_visitH es f _ dfs u
+  · intro v
+    rw [mem_visitH_bfs]
+    constructor
+    · rintro ⟨k, hw, hok⟩
+      rw [okLen_some] at hok
+      have hk : k = 0 ∨ k = 1 := by omega
+      rcases hk with rfl | rfl
+      · cases hw; exact Or.inl rfl
+      · cases hw with
+        | step hw0 ha =>
+          cases hw0
+          by_cases hvu : v = u
+          · exact Or.inl hvu
+          · obtain ⟨e, he, hp, hue, hve⟩ := ha
+            exact Or.inr ((mem_neighbors es f u v).mpr ⟨hvu, e, he, hp, hue, hve⟩)
+    · rintro (rfl | hv)
+      · exact ⟨0, Walk.zero _, trivial⟩
+      · obtain ⟨_, e, he, hp, hue, hve⟩ := (mem_neighbors es f u v).mp hv
+        exact ⟨1, Walk.step (Walk.zero u) ⟨e, he, hp, hue, hve⟩, by rw [okLen_some]; omega⟩
+
+/-- A bound of at least `|nodes| - 1` is no bound: in a hypergraph as the containers list it (hyperedges over nodes) every
+reachable node is reachable by a walk of fewer steps than there are nodes, so `_bfs(u, max_depth=m)` with `m ≥ |nodes| - 1`
+visits exactly the reachability class - the same set as `max_depth=None` and as `node_connected_component(u)`. -/
+theorem C08_bfs_depth_full (nodes : List Nat) (es : List Edge) (f : Filt) (hwf : WF nodes es) (u : Nat) (hu : u ∈ nodes) :
+    (∀ v, Reach es f u v → ∃ k, k < nodes.length ∧ Walk es f u k v) ∧
+    (∀ m : Int, (nodes.length : Int) - 1 ≤ m → ∀ v, v ∈ visitH es f (some m) false u ↔ Reach es f u v) ∧
+    (∀ m : Int, (nodes.length : Int) - 1 ≤ m → ∃ c d, visitFrom nodes es f (some m) false u = some c ∧
+      nodeComponent nodes es f u = some d ∧ c.Perm d) := by
+  have hshort := fun v => reach_short nodes es f hwf u v hu
+  have hfull : ∀ m : Int, (nodes.length : Int) - 1 ≤ m → ∀ v, v ∈ visitH es f (some m) false u ↔ Reach es f u v := by
+    intro m hm v
+    rw [mem_visitH_bfs]
+    constructor
+    · rintro ⟨k, hw, _⟩; exact hw.reach
+    · intro hr
+      obtain ⟨k, hk, hw⟩ := hshort v hr
+      exact ⟨k, hw, by rw [okLen_some]; omega⟩
+  refine ⟨hshort, hfull, ?_⟩
+  intro m hm
+  refine ⟨visitH es f (some m) false u, bfsH es f u, by simp [visitFrom, hu], by simp [nodeComponent, bfsFrom, hu], ?_⟩
+  apply (List.perm_ext_iff_of_nodup (visitH_nodup es f _ _ u) (bfsH_nodup es f u)).mpr
+  intro v
+  rw [hfull m hm v, mem_bfsH]
+
+/-- `_dfs(hg, u, max_depth=m, order|size)`: visits the start, never repeats a node, and everything it visits lies within
+`max m 0` steps - i.e. inside what `_bfs` visits with the same bound.  Equality does NOT hold in general and cannot be
+demanded: a depth-limited depth-first search marks a node the first time it meets it, possibly at a depth where it is no
+longer expanded, so the visited set depends on the iteration order of the neighbour sets (witness below: the same four
+hyperedges listed in two orders).  With `max_depth=None` it is exactly the class (`C08_visit_unbounded`). -/
+theorem C08_dfs_depth (nodes : List Nat) (es : List Edge) (f : Filt) (m : Int) (u : Nat) (hu : u ∈ nodes) :
+    ∃ c, visitFrom nodes es f (some m) true u = some c ∧ c.Nodup ∧ u ∈ c ∧
+      (∀ v ∈ c, ∃ k : Nat, (k : Int) ≤ max m 0 ∧ Walk es f u k v) ∧
+      (∀ d, visitFrom nodes es f (some m) false u = some d → ∀ v ∈ c, v ∈ d) := by
+  refine ⟨visitH es f (some m) true u, by simp [visitFrom, hu], visitH_nodup es f _ _ u, self_mem_visitH es f _ _ u, ?_, ?_⟩
+  · intro v hv
+    obtain ⟨k, hw, hok⟩ := mem_visitH_sound es f _ true u v hv
+    exact ⟨k, (okLen_some m k).mp hok, hw⟩
+  · intro d hd v hv
+    simp only [visitFrom, hu, if_true, Option.some.injEq] at hd
+    subst hd
+    exact (mem_visitH_bfs es f _ u v).mpr (mem_visitH_sound es f _ true u v hv)
+
+/-- The correspondence runs `_dfs` / `_bfs` also on a recorded table of `get_neighbors` answers (each answer in the order the
+Python set was iterated): when the table records what `get_neighbors` answers, that run is the search of the hypergraph. -/
+theorem C08_visit_table (es : List Edge) (f : Filt) (tab : List (Nat × List Nat)) (md : Option Int) (dfs : Bool) (u : Nat)
+    (htab : ∀ x, nbrsTab tab x = neighbors es f x) : visitTab tab md dfs u = visitH es f md dfs u :=
+  visitTab_eq es f tab md dfs u htab
+
+macro "c08_visit" : tactic => `(tactic|
+  simp [visitFrom, visitH, search, push, expand, within, neighbors, incident, incidentG, addAll, addNew, passes, exEdges,
+    exNodes])
+
+-- non-vacuity: the path-like example; radius 0, 1, 2 and no bound, with and without a filter, both searches
+set_option maxRecDepth 4000 in
+example : visitFrom exNodes exEdges .none (some 0) false 0 = some [0] ∧ visitFrom exNodes exEdges .none (some 1) false 0 = some [1, 0]
+    ∧ visitFrom exNodes exEdges .none (some 2) false 0 = some [3, 2, 1, 0]
+    ∧ visitFrom exNodes exEdges .none (some (-3)) true 0 = some [0]
+    ∧ visitFrom exNodes exEdges .none none true 0 = some [2, 4, 3, 1, 0]
+    ∧ visitFrom exNodes exEdges (.size 2) (some 5) false 0 = some [1, 0]
+    ∧ visitFrom exNodes exEdges .none (some 2) true 9 = none := by c08_visit
+-- `C08_bfs_depth_full`: 7 nodes, bound 6 - the whole class of node 0 (its farthest member is 3 steps away)
+set_option maxRecDepth 4000 in
+example : visitFrom exNodes exEdges .none (some 6) false 0 = some [4, 3, 2, 1, 0]
+    ∧ visitFrom exNodes exEdges .none (some 3) false 0 = some [4, 3, 2, 1, 0] := by c08_visit
+-- the depth-limited `_dfs` depends on the order in which the neighbours come: node 3 is two steps from 0 (0-1-3), `_bfs`
+-- with `max_depth=2` visits it for both listings, `_dfs` misses it when it meets 1 at depth 2 first (0-2-1)
+set_option maxRecDepth 4000 in
+example : visitH [[0, 1], [0, 2], [1, 2], [1, 3]] .none (some 2) true 0 = [1, 2, 0]
+    ∧ visitH [[0, 2], [0, 1], [1, 2], [1, 3]] .none (some 2) true 0 = [2, 3, 1, 0]
+    ∧ visitH [[0, 1], [0, 2], [1, 2], [1, 3]] .none (some 2) false 0 = [3, 2, 1, 0] := by
+  simp [visitH, search, push, expand, within, neighbors, incident, incidentG, addAll, addNew, passes]
+example : visitTab [(0, [2, 1]), (1, [0, 2, 3]), (2, [1, 0]), (3, [1])] (some 2) true 0 = [2, 3, 1, 0] := by
+  simp [visitTab, nbrsTab, search, push, expand, within]
+
+/-- The reachability relation "generated by the (filtered) hyperedges": `Reach es f` is an equivalence relation that
+contains "lie together in a filtered hyperedge", and it is the least reflexive transitive relation that does. -/
+theorem C08_reach_equivalence (es : List Edge) (f : Filt) :
+    (∀ u, Reach es f u u) ∧ (∀ u v, Reach es f u v → Reach es f v u) ∧
+    (∀ u v w, Reach es f u v → Reach es f v w → Reach es f u w) ∧ (∀ u v, Adj es f u v → Reach es f u v) ∧
+    (∀ R : Nat → Nat → Prop, (∀ a, R a a) → (∀ a b c, R a b → R b c → R a c) → (∀ a b, Adj es f a b → R a b) →
+      ∀ u v, Reach es f u v → R u v) :=
+  ⟨Reach.refl, fun _ _ h => h.symm, fun _ _ _ h1 h2 => h1.trans h2, fun _ _ h => Reach.single h,
+    fun R h1 h2 h3 _ _ h => Reach.least R h1 h2 h3 h⟩
+
+/-- "Exactly the classes": the list `connected_components` returns is THE partition of the node set into reachability
+classes - every family `P` of non-empty, pairwise disjoint lists of nodes that covers the nodes and in which each list is
+the class of each of its members has as many members as there are components, and each of them is (as a set) one of the
+components.  No hypothesis on the hypergraph. -/
+theorem C08_components_unique (nodes : List Nat) (es : List Edge) (f : Filt) (P : List (List Nat))
+    (hcls : ∀ p ∈ P, p ≠ [] ∧ ∀ u ∈ p, u ∈ nodes ∧ ∀ v, v ∈ p ↔ Reach es f u v)
+    (hcov : ∀ n ∈ nodes, ∃ p ∈ P, n ∈ p) (hdis : P.Pairwise Disj) :
+    P.length = numComponents nodes es f ∧ ∀ p ∈ P, ∃ c ∈ components nodes es f, ∀ v, v ∈ p ↔ v ∈ c :=
+  components_unique nodes es f P hcls hcov hdis
+
+/-- The order/size filter IS the restriction of the hypergraph to the hyperedges that pass it: every degree and
+connectivity function (and both searches, any depth bound) called with filter `f` returns - as lists, same order - what the
+same function returns without a filter on the hypergraph that keeps only the hyperedges passing `f` (and all nodes). -/
+theorem C08_filter_restrict (nodes : List Nat) (es : List Edge) (f : Filt) :
+    (∀ e, e ∈ restrict es f ↔ e ∈ es ∧ passes f e.length = true) ∧
+    (∀ n, incident es n f = incident (restrict es f) n .none) ∧
+    (∀ n, neighbors es f n = neighbors (restrict es f) .none n) ∧
+    (∀ n, degree? nodes es n f = degree? nodes (restrict es f) n .none) ∧
+    degreeSeq nodes es f = degreeSeq nodes (restrict es f) .none ∧
+    degreeDist nodes es f = degreeDist nodes (restrict es f) .none ∧
+    components nodes es f = components nodes (restrict es f) .none ∧
+    isConnected nodes es f = isConnected nodes (restrict es f) .none ∧
+    numComponents nodes es f = numComponents nodes (restrict es f) .none ∧
+    (∀ n, nodeComponent nodes es f n = nodeComponent nodes (restrict es f) .none n) ∧
+    largestComponent nodes es f = largestComponent nodes (restrict es f) .none ∧
+    largestComponentSize nodes es f = largestComponentSize nodes (restrict es f) .none ∧
+    isolatedNodes nodes es f = isolatedNodes nodes (restrict es f) .none ∧
+    (∀ n, isIsolated? nodes es f n = isIsolated? nodes (restrict es f) .none n) ∧
+    (∀ md dfs n, visitFrom nodes es f md dfs n = visitFrom nodes (restrict es f) .none md dfs n) := by
+  have hc := components_restrict nodes es f
+  have hn := neighbors_restrict es f
+  refine ⟨mem_restrict es f, incident_restrict es f, fun n => by rw [hn], ?_, degreeSeq_restrict nodes es f,
+    degreeDist_restrict nodes es f, hc, by simp only [isConnected, hc], by simp only [numComponents, hc], ?_,
+    by simp only [largestComponent, hc], by simp only [largestComponentSize, largestComponent, hc],
+    by simp only [isolatedNodes, hn], fun n => by simp only [isIsolated?, hn], ?_⟩
+  · intro n
+    have := deg_restrict es f n
+    simp only [deg] at this
+    simp only [degree?, degreeG?, this]
+  · intro n; simp only [nodeComponent, bfsFrom, bfsH_restrict es f]
+  · intro md dfs n; simp only [visitFrom, visitH_restrict es f md dfs]
+
+/-- `size=s` and `order=s-1` are the same filter for every function: they select the same hyperedges, so by
+`C08_filter_restrict` every function above returns the same list for both keywords. -/
+theorem C08_size_order (nodes : List Nat) (es : List Edge) (s : Int) :
+    restrict es (.size s) = restrict es (.order (s - 1)) ∧
+    degreeSeq nodes es (.size s) = degreeSeq nodes es (.order (s - 1)) ∧
+    degreeDist nodes es (.size s) = degreeDist nodes es (.order (s - 1)) ∧
+    components nodes es (.size s) = components nodes es (.order (s - 1)) ∧
+    isolatedNodes nodes es (.size s) = isolatedNodes nodes es (.order (s - 1)) ∧
+    largestComponent nodes es (.size s) = largestComponent nodes es (.order (s - 1)) ∧
+    (∀ n, degree? nodes es n (.size s) = degree? nodes es n (.order (s - 1))) ∧
+    (∀ n, nodeComponent nodes es (.size s) n = nodeComponent nodes es (.order (s - 1)) n) ∧
+    (∀ n, isIsolated? nodes es (.size s) n = isIsolated? nodes es (.order (s - 1)) n) ∧
+    (∀ md dfs n, visitFrom nodes es (.size s) md dfs n = visitFrom nodes es (.order (s - 1)) md dfs n) := by
+  obtain ⟨_, _, _, a4, a5, a6, a7, _, _, a10, a11, _, a13, a14, a15⟩ := C08_filter_restrict nodes es (.size s)
+  obtain ⟨_, _, _, b4, b5, b6, b7, _, _, b10, b11, _, b13, b14, b15⟩ := C08_filter_restrict nodes es (.order (s - 1))
+  have hr := restrict_size_order es s
+  rw [← hr] at b4 b5 b6 b7 b10 b11 b13 b14 b15
+  exact ⟨hr, a5.trans b5.symm, a6.trans b6.symm, a7.trans b7.symm, a13.trans b13.symm, a11.trans b11.symm,
+    fun n => (a4 n).trans (b4 n).symm, fun n => (a10 n).trans (b10 n).symm, fun n => (a14 n).trans (b14 n).symm,
+    fun md dfs n => (a15 md dfs n).trans (b15 md dfs n).symm⟩
+
+/-- A filter can only split: filtered reachability implies unfiltered reachability, so every component under `f` lies
+inside one component of the unfiltered hypergraph, there are at least as many of them, and a hypergraph connected under `f`
+is connected. -/
+theorem C08_filter_refines (nodes : List Nat) (es : List Edge) (f : Filt) :
+    (∀ u v, Reach es f u v → Reach es .none u v) ∧
+    (∀ c ∈ components nodes es f, ∃ d ∈ components nodes es .none, ∀ x ∈ c, x ∈ d) ∧
+    numComponents nodes es .none ≤ numComponents nodes es f ∧
+    (isConnected nodes es f = true → isConnected nodes es .none = true) := by
+  refine ⟨fun _ _ h => h.unfilter, ?_, numComponents_le nodes es f, ?_⟩
+  · intro c hc
+    obtain ⟨r, hr, rfl⟩ := (components_spec nodes es f).1 c hc
+    obtain ⟨d, hd, hrd⟩ := (components_spec nodes es .none).2.2 r hr
+    refine ⟨d, hd, fun x hx => ?_⟩
+    exact (components_class nodes es .none d hd r hrd x).mpr ((mem_bfsH es f r x).mp hx).unfilter
+  · intro h
+    have h3 := (C08_consistent nodes es f).2.2.1
+    have h3' := (C08_consistent nodes es .none).2.2.1
+    obtain ⟨hne, hall⟩ := h3.mp h
+    exact h3'.mpr ⟨hne, fun u hu v hv => (hall u hu v hv).unfilter⟩
+
+/-- Cross-consistency on a hypergraph as the containers list it (distinct nodes, hyperedges over nodes): the sizes of the
+components add up to the number of nodes (so there are at most that many), `is_connected` iff the largest component has
+all the nodes, `is_isolated(n)` iff `node_connected_component(n)` is `[n]`, and a node of (filtered) degree 0 is isolated
+(the converse fails exactly for nodes whose filtered hyperedges are singletons). -/
+theorem C08_cross (nodes : List Nat) (es : List Edge) (f : Filt) (hn : nodes.Nodup) (hwf : WF nodes es) :
+    ((components nodes es f).map List.length).sum = nodes.length ∧
+    numComponents nodes es f ≤ nodes.length ∧
+    (isConnected nodes es f = true ↔ largestComponentSize nodes es f = some nodes.length) ∧
+    (∀ n ∈ nodes, (isIsolated? nodes es f n = some true ↔ nodeComponent nodes es f n = some [n])) ∧
+    (∀ n, degree? nodes es n f = some 0 → isIsolated? nodes es f n = some true) := by
+  have hsum := components_sum_length nodes es f hn hwf
+  refine ⟨hsum, ?_, isConnected_iff_largest nodes es f hn hwf, ?_, ?_⟩
+  · have hpos := components_nonempty nodes es f
+    rw [← hsum]
+    unfold numComponents
+    generalize components nodes es f = l at hpos
+    induction l with
+    | nil => simp
+    | cons a t ih =>
+      have := hpos a List.mem_cons_self
+      have := ih (fun c hc => hpos c (List.mem_cons_of_mem _ hc))
+      simp only [List.length_cons, List.map_cons, List.sum_cons]; omega
+  · intro n hnn
+    rw [(C08_isolated nodes es f n hnn).2.1]
+    simp only [nodeComponent, bfsFrom, hnn, if_true, Option.some.injEq]
+    constructor
+    · intro h
+      exact eq_singleton_of_mem_iff _ n (bfsH_nodup es f n) (fun v => (mem_bfsH es f n v).trans (h v))
+    · intro h v
+      rw [← mem_bfsH, h]; simp
+  · intro n h
+    by_cases hnn : n ∈ nodes
+    · simp only [degree?, degreeG?, hnn, if_true, Option.some.injEq] at h
+      have hinc : incident es n f = [] := List.eq_nil_of_length_eq_zero h
+      simp [isIsolated?, hnn, neighbors, hinc]
+    · simp [degree?, degreeG?, hnn] at h
+
+-- non-vacuity: the example satisfies the hypotheses (checked above); three filters, three different partitions
+set_option maxRecDepth 4000 in
+example : ((components exNodes exEdges (.size 2)).map List.length).sum = 7 ∧ restrict exEdges (.size 2) = [[0, 1], [3, 4]]
+    ∧ components exNodes (restrict exEdges (.size 2)) .none = [[1, 0], [2], [4, 3], [5], [6]]
+    ∧ numComponents exNodes exEdges .none = 3 ∧ numComponents exNodes exEdges (.order 1) = 5
+    ∧ largestComponentSize [0, 1, 2] [[0, 1], [1, 2]] (.size 2) = some 3
+    ∧ nodeComponent exNodes exEdges (.size 2) 6 = some [6] ∧ degree? exNodes exEdges 6 .none = some 1 := by
+  simp [components, compLoop, numComponents, largestComponent, largestComponentSize, maxByLen, nodeComponent, bfsFrom, bfsH,
+    bfs, neighbors, incident, incidentG, addAll, addNew, passes, exEdges, exNodes, restrict, degree?, degreeG?, degG]
+
